@@ -28,6 +28,7 @@ import (
 	common2 "github.com/elastos/Elastos.ELA/core/types/common"
 	"github.com/elastos/Elastos.ELA/core/types/functions"
 	"github.com/elastos/Elastos.ELA/core/types/interfaces"
+	"github.com/elastos/Elastos.ELA/crypto"
 	"github.com/elastos/Elastos.ELA/elanet/bloom"
 	"github.com/elastos/Elastos.ELA/elanet/filter"
 	"github.com/elastos/Elastos.ELA/p2p/msg"
@@ -128,6 +129,7 @@ func doNMB(t []string) string {
 	}
 	blk := &types.Block{Header: fixHdr, Transactions: txs}
 	m, matched := bloom.NewMerkleBlock(blk, f)
+	served := ""
 	// the path the server takes (elanet/server.go): filter.Filter of type FTBloom loaded from the wire form of
 	// the same bloom filter, filter.NewMerkleBlock over the block's transactions
 	{
@@ -153,9 +155,23 @@ func doNMB(t []string) string {
 			}
 		}
 		m2, matched2 := filter.NewMerkleBlock(txs, sf)
-		if m2.Transactions != m.Transactions || !bytes.Equal(m2.Flags, m.Flags) || catHex(m2.Hashes) != catHex(m.Hashes) ||
-			fmt.Sprint(matched2) != fmt.Sprint(matched) {
-			return fmt.Sprintf("copies-differ filter: %d %s %s %v", m2.Transactions, hx.Hex(m2.Flags), catHex(m2.Hashes), matched2)
+		// what the light client recovers from the SERVED block: through the wire, against the block's root
+		root, _ := crypto.ComputeRoot(derefs(ids))
+		m2.Header = &common2.Header{MerkleRoot: root}
+		got, werr := wireTrip(*m2)
+		rec := werr
+		if werr == "" {
+			rec = strings.ReplaceAll(doCheck(got), " ", ":")
+		}
+		want := []*common.Uint256{}
+		for _, k := range matched {
+			want = append(want, ids[k])
+		}
+		served = fmt.Sprintf("%d %s %s", m2.Transactions, hx.Hex(m2.Flags), catHex(m2.Hashes))
+		if rec == strings.ReplaceAll("ok "+catHex(want), " ", ":") && fmt.Sprint(matched2) == fmt.Sprint(matched) {
+			served += " rec=ok"
+		} else {
+			served += " rec=" + rec
 		}
 	}
 	bits := make([]byte, len(txs))
@@ -168,7 +184,10 @@ func doNMB(t []string) string {
 	if catHex(ids) != t[6] || string(bits) != t[7] {
 		return "oracle-mismatch " + catHex(ids) + " " + string(bits)
 	}
-	return fmt.Sprintf("%d %s %s", m.Transactions, hx.Hex(m.Flags), catHex(m.Hashes))
+	if own := fmt.Sprintf("%d %s %s", m.Transactions, hx.Hex(m.Flags), catHex(m.Hashes)); !strings.HasPrefix(served, own+" ") {
+		served += " bloom-copy:" + strings.ReplaceAll(own, " ", ":")
+	}
+	return served
 }
 
 func hashes(s string) []*common.Uint256 {
@@ -239,6 +258,28 @@ func buildBlock(txs []*common.Uint256, bits string) (msg.MerkleBlock, common.Uin
 		m.Flags[i/8] |= mb.Bits[i] << (i % 8)
 	}
 	return m, root
+}
+
+// wireTrip sends the merkle block through msg.MerkleBlock.Serialize / Deserialize, the way the node
+// serves it and the light client receives it.
+func wireTrip(m msg.MerkleBlock) (msg.MerkleBlock, string) {
+	buf := new(bytes.Buffer)
+	if err := m.Serialize(buf); err != nil {
+		return m, "unserializable"
+	}
+	dec := msg.NewMerkleBlock(&common2.Header{})
+	if err := dec.Deserialize(bytes.NewReader(buf.Bytes())); err != nil {
+		return m, "undecodable"
+	}
+	return *dec, ""
+}
+
+func derefs(hs []*common.Uint256) []common.Uint256 {
+	out := make([]common.Uint256, len(hs))
+	for i, h := range hs {
+		out[i] = *h
+	}
+	return out
 }
 
 func classify(err error) string {
@@ -322,10 +363,18 @@ func exec(t []string) string {
 		return fmt.Sprintf("%d %s %s %s", m.Transactions, hex.EncodeToString(root[:]), hx.Hex(m.Flags), catHex(m.Hashes))
 	case "roundtrip":
 		m, _ := buildBlock(hashes(t[1]), t[2])
+		m, werr := wireTrip(m)
+		if werr != "" {
+			return werr
+		}
 		return doCheck(m)
 	case "branchrt":
 		txs := hashes(t[1])
 		m, _ := buildBlock(txs, t[2])
+		m, werr := wireTrip(m)
+		if werr != "" {
+			return werr
+		}
 		i, err := strconv.Atoi(t[3])
 		if err != nil || i < 0 || i >= len(txs) {
 			panic("harness: bad index")
@@ -425,6 +474,9 @@ func oracle(t []string, out string) *hx.Violation {
 			return &hx.Violation{Kind: "branch-root", Detail: "branch of a matched transaction does not recompute the merkle root"}
 		}
 	case "nmb":
+		if !strings.HasSuffix(out, " rec=ok") && !strings.HasPrefix(out, "oracle-mismatch") {
+			return &hx.Violation{Kind: "served-block-not-recoverable", Detail: "from the merkle block the server path (elanet/filter.NewMerkleBlock, through the wire) builds, the light client does not recover exactly the matched transactions: " + out[strings.LastIndex(out, " ")+1:]}
+		}
 		// no false negatives of the filter step (what was added is matched)
 		for i := range t[5] {
 			if t[5][i] == '1' && t[7][i] != '1' {
@@ -660,7 +712,8 @@ func genNMB(g *hx.Gen) {
 		out := exec(append(strings.Fields(op), "-", "-"))
 		f := strings.Fields(out)
 		if len(f) != 3 || f[0] != "oracle-mismatch" {
-			panic("harness: nmb probe: " + out)
+			g.Emit("%s - -", op) // the implementation already fails in the probe; let the stream show it
+			continue
 		}
 		g.Emit("%s %s %s", op, f[1], f[2])
 	}
